@@ -550,7 +550,9 @@ class Chip:
             self.state = "rxack"
 
             def go():
-                if self.state == "rxack" and self.in_rx_mode():
+                # datasheet 7.5.2 (PRX operation flow): CE is only examined at the top of the loop; once a packet
+                # has been taken the ACK goes out even if the MCU has meanwhile pulled CE low or cleared PRIM_RX
+                if self.state == "rxack" and self.powered():
                     self.medium.transmit(a)
                 elif self.state == "rxack":
                     self.state = "idle"
